@@ -465,7 +465,13 @@ impl Options {
                         .collect::<Vec<String>>()
                 } else {
                     match (arg.starts_with('-'), arg.split_once('=')) {
-                        (true, Some((a, b))) => vec![a.to_owned(), b.to_owned()],
+                        // only an option with a parameter has a `=VALUE` part: `--flag=x` is not a
+                        // spelling of `--flag` followed by the positional `x`
+                        (true, Some((a, b)))
+                            if matches!(self.find(a), Some(OptionArg::WithParam { .. })) =>
+                        {
+                            vec![a.to_owned(), b.to_owned()]
+                        }
                         _ => vec![arg.to_owned()],
                     }
                 }
